@@ -17,7 +17,15 @@ using namespace vrt;
 
 enum Site { S_BODY = 0, S_RANGE_COPY, S_RANGE_SPLIT, S_BODY_SPLIT, S_JOIN, S_FEED, S_FILTER, S_CMP, S_COMBINE, S_FG, NSITES };
 static const char* site_name[] = { "body", "range_copy", "range_split", "body_split", "join", "feeder_item", "filter", "comparator", "combine", "fg_body" };
-struct Boom { int id; };
+// The exception type counts its live instances: every copy the library captures (one per cancelled group, by contract) must be destroyed
+// once the waiting call has rethrown it and the handler is done; a capture that is overwritten and forgotten stays alive for ever.
+static std::atomic<long> g_boom_live{0}, g_boom_made{0};
+struct Boom {
+    int id;
+    explicit Boom(int i) : id(i) { g_boom_live.fetch_add(1, std::memory_order_relaxed); g_boom_made.fetch_add(1, std::memory_order_relaxed); }
+    Boom(const Boom& o) : id(o.id) { g_boom_live.fetch_add(1, std::memory_order_relaxed); }
+    ~Boom() { g_boom_live.fetch_sub(1, std::memory_order_relaxed); }
+};
 
 struct Call {                                 // state of one call under test (kept alive after the call: late bodies must find it)
     std::atomic<long> counter[NSITES];
@@ -38,7 +46,7 @@ static void maybe_throw(Call* c, int site) {
         int id = g_exc_id.fetch_add(1);
         { std::lock_guard<std::mutex> l(c->m); c->thrown.push_back(id); }
         c->thrown_n.fetch_add(1);
-        throw Boom{ id };
+        throw Boom(id);
     }
 }
 // Throw point of a plain body. In half of the calls the body first re-enters the scheduler in a way that makes the library swap the
@@ -117,6 +125,9 @@ static bool attempt(Result& R, Call* c, const Scen& sc, F&& call, bool expect_st
     if (!returned && !caught && !foreign) viol("no-outcome", "internal");
     if (caught && nthrown == 0) viol("exception-without-throw", "exception delivered although nothing was thrown");
     if (live_now != 0) viol("bodies-still-running", std::to_string(live_now) + " bodies of the group were still running when the call " + (returned ? "returned" : "threw"));
+    // every exception object of this call must be gone as well: the handler above has ended, the group's context was reset or destroyed
+    { long b = g_boom_live.load(); for (int i = 0; i < 4000 && b != 0; i++) { sched_yield(); b = g_boom_live.load(); }
+      if (b != 0) { viol("exception-object-not-destroyed", std::to_string(b) + " exception object(s) thrown by this call's bodies are still alive after the call ended and its handler returned (captured more than once / capture never released; negative: destroyed twice)"); g_boom_live.store(0); } }
     // objects made by the library for this call must all be gone (short grace: destruction precedes the release of the wait)
     long o = c->objs.load(); for (int i = 0; i < 2000 && o != 0; i++) { sched_yield(); o = c->objs.load(); }
     if (o != 0) viol("objects-not-destroyed", std::to_string(o) + " copies of user objects made for this call were not destroyed (negative: destroyed twice)");
